@@ -121,7 +121,16 @@ def execNodes (b : Beh) (m : Maps) (errTy : Ty) (fin : Node) : List Node → VC 
 
 /-! ### the STATIC chain -/
 
-def callStatic (b : Beh) (n : SNode) (args : List Val) (st : St) : List Val × St :=
+/-- generate.go:369: a fallible static injector's TerminalError is converted to `error` before it
+    is stored; a nil TerminalError becomes a nil `error` (the zero value of the retyped output) -/
+def retypeErr (n : SNode) (outs : List Val) : List Val :=
+  if n.fallible then
+    match outs[n.errIdx]? with
+    | some v => if v.tag = 0 then outs.set n.errIdx (zeroV (n.outs.getD n.errIdx v.ty)) else outs
+    | none => outs
+  else outs
+
+def callStaticRaw (b : Beh) (n : SNode) (args : List Val) (st : St) : List Val × St :=
   if n.singleton then
     match st.cache.lookup (n.id, []) with
     | some outs => (outs, st)
@@ -130,6 +139,10 @@ def callStatic (b : Beh) (n : SNode) (args : List Val) (st : St) : List Val × S
       let st := st.push (.call n.id args outs)
       (outs, { st with cache := ((n.id, []), outs) :: st.cache })
   else callFn b n.id n.memo args st
+
+def callStatic (b : Beh) (n : SNode) (args : List Val) (st : St) : List Val × St :=
+  let r := callStaticRaw b n args st
+  (retypeErr n r.1, r.2)
 
 /-- `runStaticChain` over `baseValues`; the Bool says whether it ran to the end -/
 def execStatic (b : Beh) (m : Maps) : List SNode → VC → St → VC × St
